@@ -82,8 +82,21 @@ def St.setOther {α : Type} (s : St α) (x : Option α) : St α := if s.second t
 def statM (c : Cbuf) : String := s!" | {c.size} {c.used} {linesUsed c} {reused c}"
 def statS (r : Spec.RFifo) : String := s!" | {r.f.size} {r.f.q.length} {Spec.linesUsed r.f} {r.hist.length}"
 
+/-- the growth policy a model step runs under: a line annotated with the implementation's own
+    answer (`<op ...> @ <impl-ret> <impl-size>`, the same annotation the spec run gets) makes the
+    model FOLLOW the observed capacity of the buffer written to (`pinPolicy`: admissible for every
+    observation, `Cbuf.pin_admissible`, so the theorems of Props/C13.lean cover the run); an
+    inadmissible observation falls back to the policy of the code as it is and shows as a
+    difference.  Without annotation: the policy of the code as it is. -/
+def polFor (target : Cbuf) (ann : List String) : Policy :=
+  match (ann.drop 1).head?.bind String.toNat? with
+  | some sz => pinPolicy chunkPolicy (target.alloc - target.size) sz
+  | none => chunkPolicy
+
 def stepModel (st : St Cbuf) (line : String) : St Cbuf × String :=
-  match Driver.words line with
+  let ws0 := Driver.words line
+  let ann := (ws0.dropWhile (· ≠ "@")).drop 1
+  match ws0.takeWhile (· ≠ "@") with
   | ["reset"] => ({}, "ok")
   | ["sel", i] => ({ st with second := i = "1" }, "ok")
   | ["create", mn, mx, smeta] =>
@@ -98,7 +111,7 @@ def stepModel (st : St Cbuf) (line : String) : St Cbuf × String :=
       match len.toInt?, st.cur, st.other with
       | some len, some src, some dst =>
         let op : Op2 := if k = "copy" then .copy false len else .move false len
-        let (o, (src', dst')) := stepM2 (src, dst) op
+        let (o, (src', dst')) := stepM2 (src, dst) op (polFor dst ann)
         ((st.setCur (some src')).setOther (some dst'), s!"{o.ret} {o.ndropped}" ++ statM src' ++ statM dst')
       | none, _, _ => (st, "bad-op")
       | _, _, _ => (st, "no-cbuf")
@@ -106,12 +119,14 @@ def stepModel (st : St Cbuf) (line : String) : St Cbuf × String :=
       match st.cur, parseOp [k, len] with
       | none, _ => (st, "no-cbuf")
       | _, none => (st, "bad-op")
-      | some c, some (op, f) => let (o, c') := stepMR c op; (st.setCur (some c'), fmtOut f o ++ statM c')
+      | some c, some (op, f) =>
+        let (o, c') := stepMR c op (polFor c ann); (st.setCur (some c'), fmtOut f o ++ statM c')
   | ws =>
     match st.cur, parseOp ws with
     | none, _ => (st, "no-cbuf")
     | _, none => (st, "bad-op")
-    | some c, some (op, f) => let (o, c') := stepMR c op; (st.setCur (some c'), fmtOut f o ++ statM c')
+    | some c, some (op, f) =>
+      let (o, c') := stepMR c op (polFor c ann); (st.setCur (some c'), fmtOut f o ++ statM c')
 
 /-- spec lines are the op lines annotated by the harness run: `<op ...> @ <impl-ret> <impl-size>` -/
 def stepSpec (st : St Spec.RFifo) (line : String) : St Spec.RFifo × String :=
